@@ -1,4 +1,5 @@
 import ArgoVerif.Props.SchedCommon
+import ArgoVerif.Props.C06Stop
 /-
 Props.C01 — every work unit runs exactly once to completion; none is lost or duplicated.
 Model.Sched abstracts pools as bags with an arbitrary pop choice, so FIFO / FIFO_WAIT / RANDWS / user-defined pools and
